@@ -1033,6 +1033,12 @@ class Gen:
             first = ".db " + ", ".join(self.lit(8) for _ in range(rng.randrange(3, 9)))
             if not use_map:
                 root += [stmt(f"*={ra:#08x}", "stareq"), stmt(first), stmt(f"*={ra + rng.randrange(0, 3):#08x}", "stareq"), stmt(f".db {self.lit(8)}"), stmt(f"*={ra:#08x}", "stareq"), stmt(first)]
+                # blocks a few bytes apart (the bytes in between belong to nobody), and two regions filled
+                # alternately, each continuing exactly where it stopped
+                g = ra + 0x40
+                root += [stmt(f"*={g:#08x}", "stareq"), stmt(f".db {self.lit(8)}, {self.lit(8)}"), stmt(f"*={g + 2 + rng.randrange(1, 5):#08x}", "stareq"), stmt(f".db {self.lit(8)}")]
+                r1, r2 = ra + 0x200, ra + 0x100
+                root += [stmt(f"*={r1:#08x}", "stareq"), stmt(f".dw {self.lit(16)}"), stmt(f"*={r2:#08x}", "stareq"), stmt(f".db {self.lit(8)}, {self.lit(8)}, {self.lit(8)}"), stmt(f"*={r1 + 2:#08x}", "stareq"), stmt(f".dw {self.lit(16)}"), stmt(f"*={r2 + 3:#08x}", "stareq"), stmt(f".db {self.lit(8)}")]
         if "zero_block" in f and not use_map and "low2_upper" not in f:
             # a block made of zero bytes only, above everything else the program writes (a writer must
             # still write it: the flat image ends with it, and a patch must contain it)
